@@ -56,6 +56,12 @@ def main():
         # exhaustive depth 3 = Open, Write, Close ...; keep those that contain a Close (others commit nothing)
         behs += [b for b in g2.traces if any(s["act"]["name"] == "Close" for s in b)]
         run.add_tlc(g2, "MetaCodecGen")
+        # timestamp orders: histories over the 6 timestamps only (one count vector), several writes per session
+        g3 = vlib.tlc("store", "MetaCodecMC", "MetaCodecGen.cfg", scratch=sc, timeout=1200, workers=4,
+                      simulate=(4000 if thorough else 900), depth=14, seed=run.seed + 7,
+                      consts="CONSTANT MaxOps = 8\nCONSTANT TsOnly = TRUE")
+        vlib.expect_tlc_ok(g3, "MetaCodecGen-ts")
+        behs += g3.traces
         vlib.require(len(behs) > 300, "too few histories generated")
         root = os.path.join(sc, "meta")
         os.makedirs(root)
